@@ -85,8 +85,10 @@ def t_generate(E):
     # element i receives the constraint's submap at index i
     sub = lambda i: T.chm_inner(c.t, E.I.to_u(SInt(i, False)))
     gen = lambda i: UVal(T.gen_tr(g.t, subkey(E, k, n, i), sub(i), E.I.to_u(elem_args(E, args, i))), "Trace")
+    # (C35, elementwise: a vectorised mask in the constraint reaches element i only through submap i, where
+    # C35.Indexed.masked_entry_is_present_iff_index_hit_and_flag and C35.Distribution.* decide what flag[i] does)
     E.prove("C11.Vmap.generate.element_i_gets_constraint_submap_i",
-            forall_i(E, n, lambda i: E.eq(tr.fields["inner"].at(i), gen(i))))
+            forall_i(E, n, lambda i: E.eq(tr.fields["inner"].at(i), gen(i))), also=["C35"])
     spec_w = E.I.make_sum(Stacked(n, lambda i: SReal(T.cdens(gen(i).t, sub(i)))))
     E.prove("C03.Vmap.generate.weight_is_sum_of_element_weights", E.eq(w, spec_w))
     E.prove("C03.Vmap.generate.elements_agree_with_their_subconstraints",
@@ -115,7 +117,7 @@ def an_old_trace(E, vm, g, args, n):
     return old, inner
 
 
-@task("vmap.edit_update", props=["C01", "C05", "C06", "C11"], functions=FUNCS)
+@task("vmap.edit_update", props=["C01", "C05", "C06", "C11", "C35"], functions=FUNCS)
 def t_edit_update(E):
     z3, T = E.z3, E.I.T
     vm, g, args, n = setup(E)
@@ -132,7 +134,7 @@ def t_edit_update(E):
     ed = lambda f, i: f(g.t, subkey(E, k, n, i), inner.at(i).t, E.I.to_u(sub(i)), E.I.to_u(ad_i(i)))
     E.cover("vmap.edit_update.reached")
     E.prove("C11.Vmap.edit_update.element_i_is_edited_with_submap_i_and_sliced_argdiffs",
-            forall_i(E, n, lambda i: E.eq(new.fields["inner"].at(i), UVal(ed(T.edit_tr, i), "Trace"))))
+            forall_i(E, n, lambda i: E.eq(new.fields["inner"].at(i), UVal(ed(T.edit_tr, i), "Trace"))), also=["C35"])
     E.prove("C05.Vmap.edit_update.args", E.eq(E.method(new, "get_args"), new_args))
     spec_w = E.I.make_sum(Stacked(n, lambda i: SReal(ed(T.edit_w, i))))
     E.prove("C05.Vmap.edit_update.weight_is_sum_of_element_weights", E.eq(w, spec_w))
